@@ -134,6 +134,10 @@ fn filter_case(ch: &mut Choices<'_>, st: &mut Stats) -> CaseResult {
         unknown.push(f.name.to_uppercase());
         unknown.push(format!("{}.", f.name));
         unknown.push(format!(" {}", f.name));
+        // a field name followed by something that cannot continue an identifier
+        for suffix in [" ", "\0", " == 1", "[0]", "[\"k\"]", "\n", ")", " and t"] {
+            unknown.push(format!("{}{suffix}", f.name));
+        }
     }
     for fname in &recipe.funcs {
         unknown.push(fname.clone());
